@@ -21,6 +21,12 @@ void F__ZdlPv(u8 *p) { LL2C_FREE(p); }
 #ifdef NEED__ZdaPv
 void F__ZdaPv(u8 *p) { LL2C_FREE(p); }
 #endif
+/* exact small-integer models of the libm functions the encoded units use (ceil(sqrt(n)), ceil(n / p) in the grid encoding of
+   at-most-one); cbmc's own sqrt is a nondeterministic approximation, which turns loop bounds symbolic.  sqrt is exact for
+   perfect squares and otherwise returns floor(sqrt(x)) + 0.5, which is all that ceil / floor / comparisons of it can observe. */
+static double __ll2c_floor(double x) { long i = (long)x; return ((double)i > x) ? (double)(i - 1) : (double)i; }
+static double __ll2c_ceil(double x) { long i = (long)x; return ((double)i < x) ? (double)(i + 1) : (double)i; }
+static double __ll2c_sqrt(double x) { double r = 0; while ((r + 1) * (r + 1) <= x) r += 1; return r * r == x ? r : r + 0.5; }
 int bcmp(const void *a, const void *b, unsigned long n) { return memcmp(a, b, n); }
 void __cxa_pure_virtual(void) { __CPROVER_assert(0, "PURE-VIRTUAL-CALL"); __CPROVER_assume(0); }
 #ifdef LL2C_STRING
